@@ -117,7 +117,8 @@ def run_tlc(module, cfg=None, workers=4, simulate=None, depth=None, seed=None, e
     """Run TLC on spec/<module>.tla with spec/<cfg>.cfg.  Returns TlcResult.
     Lines of the form <<"TAG", "<json>">> are decoded into result.lines[TAG]."""
     meta = tempfile.mkdtemp(prefix="tlcmeta.", dir=BUILD)
-    jopts = ["-XX:+UseParallelGC", "-Xss1g", "-Xmx" + xmx]
+    jopts = ["-XX:+UseParallelGC", "-Xss1g", "-Xmx" + xmx, "-Dfile.encoding=UTF-8", "-Dsun.stdout.encoding=UTF-8",
+             "-Dsun.stderr.encoding=UTF-8"]
     if deque:
         jopts.append("-Dtlc2.tool.queue.IStateQueue=StateDeque")
     cmd = ["java"] + jopts + ["-cp", JAR, "tlc2.TLC", "-workers", str(workers), "-metadir", meta,
@@ -136,13 +137,14 @@ def run_tlc(module, cfg=None, workers=4, simulate=None, depth=None, seed=None, e
     cmd += ["-config", (cfg or module) + ".cfg", module + ".tla"]
     e = dict(os.environ)
     e.pop("JAVA_TOOL_OPTIONS", None)
+    e["LC_ALL"] = "C.UTF-8"
     if env:
         e.update({k: str(v) for k, v in env.items()})
     t0 = time.time()
     r = TlcResult()
     try:
         p = subprocess.run(cmd, cwd=cwd, env=e, stdout=subprocess.PIPE, stderr=subprocess.STDOUT,
-                           text=True, timeout=timeout)
+                           text=True, encoding="utf-8", errors="replace", timeout=timeout)
         r.out, r.rc = p.stdout, p.returncode
     except subprocess.TimeoutExpired as ex:
         r.out = (ex.stdout or b"").decode("utf-8", "replace") if isinstance(ex.stdout, bytes) else (ex.stdout or "")
